@@ -4,7 +4,7 @@
 //! Case kinds (one text line each):
 //!   `cli <flags> file:<id> feat:<0|1|2> out:<0|1> log:<0|1> sym:<0..4>`
 //!        the decision table: all 64 subsets of {human,json,cyborg,dump,brief,pretty} x files
-//!   `cli io <flags> v:<0|1> hm:<0|1> in:<file id> cy:<id|-> out:<id|-> log:<id|-> so:<ok|full|closed|cap:N> lim:<N|-> fs:<spec|->`
+//!   `cli io <flags> v:<0|1> hm:<0|1> lu:<0|1> in:<file id> cy:<id|-> out:<id|-> log:<id|-> so:<ok|full|closed|cap:N> lim:<N|-> fs:<spec|->`
 //!        one run of `main` in a described world (files that exist / cannot be created / fail on
 //!        write, size limits, failing standard output) vs `MdModel.Cli.run`
 //!   `cli opt feat:<0..3> rec:<0|1> evil:<0|1> sym:<0..4> url:<0|1> local:<0|1> noint:<0|1> mode:<h|j|c>`
@@ -403,6 +403,8 @@ struct Lib {
     dump: Rep,
     dump_brief: Rep,
     dump_labels: Vec<String>,
+    /// the system info is readable and its CPU is neither x86-64 nor arm64
+    cpu_unsupported_by_debuginfo: bool,
     panicked: Option<String>,
 }
 
@@ -424,6 +426,9 @@ fn library(path: &Path, plan: &LibPlan) -> Lib {
             Err(_) => return lib,
         };
         lib.class = "unprocessable";
+        if let Ok(si) = dump.get_stream::<MinidumpSystemInfo>() {
+            lib.cpu_unsupported_by_debuginfo = !matches!(si.cpu, minidump::system_info::Cpu::X86_64 | minidump::system_info::Cpu::Arm64);
+        }
         for brief in [false, true] {
             let secs = lib_sections(&dump, brief);
             let bytes = concat(&secs);
@@ -772,6 +777,7 @@ struct IoCase {
     flags: String,
     verbose_off: bool,
     help_md: bool,
+    local_debuginfo: bool,
     input: String,
     cy: Option<String>,
     out: Option<String>,
@@ -789,19 +795,19 @@ fn opt_id(s: &str) -> Option<String> {
 
 fn parse_io(case: &str) -> Option<IoCase> {
     let f: Vec<&str> = case.split(' ').filter(|s| !s.is_empty()).collect();
-    if f.len() != 12 || f[0] != "cli" || f[1] != "io" {
+    if f.len() != 13 || f[0] != "cli" || f[1] != "io" {
         return None;
     }
-    let so_text = f[9].strip_prefix("so:")?.to_string();
+    let so_text = f[10].strip_prefix("so:")?.to_string();
     let so = match so_text.as_str() {
         "ok" => So::Ok,
         "full" => So::Full,
         "closed" => So::Closed,
         s => So::Cap(s.strip_prefix("cap:")?.parse().ok()?),
     };
-    let lim_s = f[10].strip_prefix("lim:")?;
+    let lim_s = f[11].strip_prefix("lim:")?;
     let lim = if lim_s == "-" { None } else { Some(lim_s.parse().ok()?) };
-    let fs_text = f[11].strip_prefix("fs:")?.to_string();
+    let fs_text = f[12].strip_prefix("fs:")?.to_string();
     let mut fs = vec![];
     if fs_text != "-" {
         for item in fs_text.split(';').filter(|s| !s.is_empty()) {
@@ -813,10 +819,11 @@ fn parse_io(case: &str) -> Option<IoCase> {
         flags: f[2].to_string(),
         verbose_off: f[3].strip_prefix("v:")? == "1",
         help_md: f[4].strip_prefix("hm:")? == "1",
-        input: f[5].strip_prefix("in:")?.to_string(),
-        cy: opt_id(f[6].strip_prefix("cy:")?),
-        out: opt_id(f[7].strip_prefix("out:")?),
-        log: opt_id(f[8].strip_prefix("log:")?),
+        local_debuginfo: f[5].strip_prefix("lu:")? == "1",
+        input: f[6].strip_prefix("in:")?.to_string(),
+        cy: opt_id(f[7].strip_prefix("cy:")?),
+        out: opt_id(f[8].strip_prefix("out:")?),
+        log: opt_id(f[9].strip_prefix("log:")?),
         so,
         so_text,
         lim,
@@ -879,11 +886,14 @@ fn io_model_request(case: &str) -> Option<String> {
     };
     let m = Rep { bytes: help_markdown().clone(), pend: 0 };
     let id = |o: &Option<String>| o.clone().unwrap_or_else(|| "-".into());
+    // `localUnsupported` of the model: the flag is given and the dump's CPU is not one main.rs lets through
+    let lu = c.local_debuginfo && lib.cpu_unsupported_by_debuginfo;
     Some(format!(
-        "cli io {} v:{} hm:{} in:{} cy:{} out:{} log:{} so:{} lim:{} fs:{} {} {} {} {}",
+        "cli io {} v:{} hm:{} lu:{} in:{} cy:{} out:{} log:{} so:{} lim:{} fs:{} {} {} {} {}",
         c.flags,
         c.verbose_off as u8,
         c.help_md as u8,
+        lu as u8,
         lib.class,
         id(&c.cy),
         id(&c.out),
@@ -914,6 +924,8 @@ fn diag_names(stderr: &str) -> String {
             "read-error"
         } else if line.contains("Error processing dump") || line.contains("Error getting system info") {
             "process-error"
+        } else if line.contains("Local debug info is only supported") {
+            "local-debuginfo-error"
         } else if line.contains("Panic - ") {
             "panic"
         } else if names.contains(&"usage") || line.trim().is_empty() {
@@ -963,6 +975,9 @@ fn io_exec(case: &str) -> ImplResult {
     if c.verbose_off {
         args.push("--verbose".into());
         args.push("off".into());
+    }
+    if c.local_debuginfo {
+        args.push("--use-local-debuginfo".into());
     }
     if let Some(id) = &c.out {
         args.push("--output-file".into());
@@ -1149,9 +1164,14 @@ fn io_exec(case: &str) -> ImplResult {
                 res.oracle.push(("failure-without-diagnostic".into(), cmdline.clone()));
             }
         }
+        other if c.help_md => {
+            // the hidden developer option `--help-markdown` is outside the property's quantifier (it is not
+            // an output option for a minidump): its panic on a failing stdout is modelled (status 101) and
+            // compared with the model, not judged
+            res.tags.push(format!("io:help-markdown-status-{other}"));
+        }
         other => {
-            let class = if c.help_md { "help-markdown-panics-on-failing-stdout" } else { "abnormal-exit" };
-            res.oracle.push((class.into(), format!("{cmdline}: status {other} ({})", stderr.lines().last().unwrap_or(""))));
+            res.oracle.push(("abnormal-exit".into(), format!("{cmdline}: status {other} ({})", stderr.lines().last().unwrap_or(""))));
         }
     }
     if let Some(msg) = &lib.panicked {
@@ -1388,6 +1408,12 @@ fn opt_exec(case: &str) -> ImplResult {
             let _ = std::fs::remove_dir_all(&dir);
             return res;
         }
+        Some(1) if c.local && c.sym < 2 && output.stdout.is_empty() && stderr.contains("Local debug info is only supported") => {
+            // an x86 dump: refused with a diagnostic (fix fb88910); the world side is checked by the io cases
+            res.out = "exit1-local-unsupported".into();
+            let _ = std::fs::remove_dir_all(&dir);
+            return res;
+        }
         Some(0) => {}
         _ => {
             res.out = format!("ABNORMAL {}", exit_label(&output.status));
@@ -1442,23 +1468,25 @@ fn opt_exec(case: &str) -> ImplResult {
         };
         format!("ok evil:{} rec:{} sup:{sup}", evil as u8, recover as u8)
     };
-    // the plan main.rs is expected to build (hand-mirrored; the Lean model `plan` must say the same)
+    // the plan main.rs is expected to build (hand-mirrored; the Lean model `plan` must say the same):
+    // "unstable-all enables: --recover-function-args", the flag only adds
     let exp_sup: u8 = if c.url { 2 } else if !all.is_empty() { 1 } else { 0 };
+    let exp_rec = c.rec || c.feat == 2;
     let mut named_as: Option<String> = None;
-    if render(c.rec, c.evil, exp_sup, &all) == got {
-        named_as = Some(label(c.rec, c.evil, exp_sup, named.len(), positional.len(), false));
+    if render(exp_rec, c.evil, exp_sup, &all) == got {
+        named_as = Some(label(exp_rec, c.evil, exp_sup, named.len(), positional.len(), false));
     } else {
         // which plan DID the tool use?
         let swapped: Vec<PathBuf> = positional.iter().cloned().chain(named.iter().cloned()).collect();
         let alts: Vec<(bool, bool, u8, Vec<PathBuf>, usize, usize, bool)> = vec![
-            (!c.rec, c.evil, exp_sup, all.clone(), named.len(), positional.len(), false),
-            (c.rec, !c.evil, exp_sup, all.clone(), named.len(), positional.len(), false),
-            (c.rec, c.evil, exp_sup, named.clone(), named.len(), 0, false),
-            (c.rec, c.evil, exp_sup, positional.clone(), 0, positional.len(), false),
-            (c.rec, c.evil, exp_sup, swapped, named.len(), positional.len(), true),
-            (c.rec, c.evil, exp_sup, vec![], 0, 0, false),
-            (c.rec, c.evil, 0, vec![], 0, 0, false),
-            (c.rec, c.evil, 1, all.clone(), named.len(), positional.len(), false),
+            (!exp_rec, c.evil, exp_sup, all.clone(), named.len(), positional.len(), false),
+            (exp_rec, !c.evil, exp_sup, all.clone(), named.len(), positional.len(), false),
+            (exp_rec, c.evil, exp_sup, named.clone(), named.len(), 0, false),
+            (exp_rec, c.evil, exp_sup, positional.clone(), 0, positional.len(), false),
+            (exp_rec, c.evil, exp_sup, swapped, named.len(), positional.len(), true),
+            (exp_rec, c.evil, exp_sup, vec![], 0, 0, false),
+            (exp_rec, c.evil, 0, vec![], 0, 0, false),
+            (exp_rec, c.evil, 1, all.clone(), named.len(), positional.len(), false),
         ];
         for (r, e, s, paths, nn, np, sw) in alts {
             if s == 1 && paths.is_empty() {
@@ -1474,19 +1502,17 @@ fn opt_exec(case: &str) -> ImplResult {
         Some(l) => res.out = l,
         None => res.out = format!("UNKNOWN-PLAN[stdout {} bytes fnv {:016x}]", got.0.len(), fnv64(&got.0)),
     }
-    let expected_label = label(c.rec, c.evil, exp_sup, named.len(), positional.len(), false);
+    let expected_label = label(exp_rec, c.evil, exp_sup, named.len(), positional.len(), false);
     if res.out != expected_label {
+        // the documentation of --features: "unstable-all enables: --recover-function-args"
+        let class = if c.feat == 2 && !c.rec && res.out == label(false, c.evil, exp_sup, named.len(), positional.len(), false) {
+            "features-unstable-all-does-not-enable-recover-function-args"
+        } else {
+            "report-differs-from-library-with-the-given-options"
+        };
         res.oracle.push((
-            "report-differs-from-library-with-the-given-options".into(),
+            class.into(),
             format!("{cmdline}: the report is not what the library produces for these options (expected plan `{expected_label}`, the tool behaved like `{}`)", res.out),
-        ));
-    }
-    // the documentation of --features: "unstable-all enables: --recover-function-args"
-    let documented_recover = c.rec || c.feat == 2;
-    if documented_recover != c.rec && render(documented_recover, c.evil, exp_sup, &all) != got && render(c.rec, c.evil, exp_sup, &all) == got {
-        res.oracle.push((
-            "features-unstable-all-does-not-enable-recover-function-args".into(),
-            format!("{cmdline}: the report equals the library's with recover_function_args = false; ProcessorOptions::unstable_all() sets it and the --features documentation promises it"),
         ));
     }
     if !stderr.trim().is_empty() {
@@ -1891,6 +1917,7 @@ fn kind_of(case: &str) -> &str {
     case.split(' ').filter(|s| !s.is_empty()).nth(1).unwrap_or("")
 }
 
+/// `hm`: bit 0 = `--help-markdown`, bit 1 = `--use-local-debuginfo`
 fn io_line(flags: &str, v: u8, hm: u8, input: &str, cy: &str, out: &str, log: &str, so: &str, lim: &str, fs: &[&str]) -> String {
     // the special ids carry their kind; listed ids are sorted and unique
     let mut items: Vec<String> = fs.iter().map(|s| s.to_string()).collect();
@@ -1909,7 +1936,9 @@ fn io_line(flags: &str, v: u8, hm: u8, input: &str, cy: &str, out: &str, log: &s
     items.sort();
     items.dedup();
     format!(
-        "cli io {flags} v:{v} hm:{hm} in:{input} cy:{cy} out:{out} log:{log} so:{so} lim:{lim} fs:{}",
+        "cli io {flags} v:{v} hm:{} lu:{} in:{input} cy:{cy} out:{out} log:{log} so:{so} lim:{lim} fs:{}",
+        hm & 1,
+        hm >> 1,
         if items.is_empty() { "-".to_string() } else { items.join(";") }
     )
 }
@@ -1991,6 +2020,15 @@ fn generate_io(emit: &mut dyn FnMut(String)) {
     for n in [0u64, 100, 5000, 100000] {
         emit(io_line("db", 0, 0, ok, "-", "a", "-", "ok", &n.to_string(), &[]));
         emit(io_line("db", 0, 0, ok, "-", "-", "-", &format!("cap:{n}"), &n.to_string(), &[]));
+    }
+    // (5b) --use-local-debuginfo: an x86 dump (refused: status 1 after the files were created), a missing
+    // file, a dump without system info
+    for (flags, cy) in [("-", "-"), ("b", "-"), ("j", "-"), ("c", "b"), ("db", "-"), ("p", "-")] {
+        for input in [ok, "missing", "synth:nosys"] {
+            emit(io_line(flags, 0, 2, input, cy, "-", "-", "ok", "-", &[]));
+            emit(io_line(flags, 0, 2, input, cy, "a", "l", "ok", "-", &["a=file:3000:4", "b=file:3000:6"]));
+            emit(io_line(flags, 1, 2, input, cy, "a", "-", "ok", "-", &[]));
+        }
     }
     // (6) the hidden --help-markdown (a member of the format group): healthy and failing standard output
     emit(io_line("-", 0, 1, ok, "-", "-", "-", "ok", "-", &[]));
